@@ -143,7 +143,7 @@ fn pair_cover<T: Copy>(all: &[T], n: usize) -> Vec<T> {
 pub fn run(ctx: Arc<Ctx>) {
 	ctx.rule(
 		"independent encoders x layout freedoms: versatiles (coverage tight/full/margin, block order, tile order, shared ranges, padding, metadata absent) 96 layouts; PMTiles (internal compression none/gzip, run lengths, shared offsets, 0..3 leaf levels with leaf size 1..3, clustered / reversed data) 160 layouts; \
-		 MBTiles (table / view over map+images, extra metadata, index, insert order) 16 layouts; tar (./ prefix, directory entries, ustar/GNU, member order natural / reversed / levels interleaved / hash order, metadata position) 32 layouts; directory (extra files). tile sets: BFS depth <= 1 x all layouts, PMTiles: every run (start x length <= 20 quick / 64 thorough) of equal consecutive tile ids 1..84 and every placement of two equal tiles + one other at z=2 x the layouts with run lengths / shared ranges, depth 2 x spread of layouts (quick) / all (thorough, in-memory formats), named families. \
+		 MBTiles (table / view over map+images, extra metadata, index, insert order) 16 layouts; tar (./ prefix, directory entries, ustar/GNU, member order natural / reversed / levels interleaved / hash order, metadata position) 32 layouts; directory (extra files, mixed spellings, symbolic links); every tile type and compression code of each layout must be reported as what it stands for; directories opened by name whatever the name ends in. tile sets: BFS depth <= 1 x all layouts, PMTiles: every run (start x length <= 20 quick / 64 thorough) of equal consecutive tile ids 1..84 and every placement of two equal tiles + one other at z=2 x the layouts with run lengths / shared ranges, depth 2 x spread of layouts (quick) / all (thorough, in-memory formats), named families. \
 		 non-trivial = distinct (format, layout, tile set) using a feature the repository's writers never emit",
 	);
 	let work = ct::WorkDir::new("c16");
@@ -376,6 +376,82 @@ pub fn run(ctx: Arc<Ctx>) {
 		let t = &fams[2].1;
 		let d = codec::pm_decode(&codec::pm_encode(t, 2, 1, META, l)).expect("pm self decode");
 		assert_eq!(&d.tiles, t, "{l:?}");
+	}
+	// what a foreign container declares about its tiles: every tile type and compression code of the published layouts
+	// (versatiles v02 header bytes 14 / 15, PMTiles v3 header bytes 98 / 99, the MBTiles 'format' row, the file name
+	// extensions of tar members and directory entries) must be reported as the format / compression it stands for
+	{
+		use versatiles_core::types::{TileCompression as TC, TileFormat as TF};
+		let rt = tokio::runtime::Builder::new_current_thread().build().unwrap();
+		let mut small = TileMap::new();
+		small.insert((3, 1, 2), b"declared".to_vec());
+		small.insert((3, 2, 2), b"declared too".to_vec());
+		let judge = |label: String, r: Result<Box<dyn versatiles_core::types::TilesReaderTrait>, String>, want: (TF, TC)| {
+			ctx.eval();
+			let case = json!({"kind": "declared format", "container": label});
+			match r {
+				Err(e) => ctx.violation(&format!("reader rejects a spec-valid container: {}", super::c01::norm_msg(&e)), &format!("{label}: {e}"), case),
+				Ok(r) => {
+					let p = r.get_parameters();
+					if (p.tile_format, p.tile_compression) != want {
+						ctx.violation("reader reports another tile format or compression than the container declares", &format!("{label}: reported {:?} / {:?}, the layout says {:?} / {:?}", p.tile_format, p.tile_compression, want.0, want.1), case);
+					}
+				}
+			}
+		};
+		let comps = [(0u8, TC::Uncompressed), (1, TC::Gzip), (2, TC::Brotli)];
+		// versatiles v02: 0x00 bin, 0x10 png, 0x11 jpg, 0x12 webp, 0x13 avif, 0x14 svg, 0x20 pbf, 0x21 geojson, 0x22 topojson, 0x23 json
+		for (code, f) in [(0x00u8, TF::BIN), (0x10, TF::PNG), (0x11, TF::JPG), (0x12, TF::WEBP), (0x13, TF::AVIF), (0x14, TF::SVG), (0x20, TF::PBF), (0x21, TF::GEOJSON), (0x22, TF::TOPOJSON), (0x23, TF::JSON)] {
+			for (cc, c) in comps {
+				let tiles: TileMap = small.iter().map(|(k, v)| (*k, codec::encode_with(cc, v))).collect();
+				let bytes = codec::vt_encode(&tiles, code, cc, META, VtLayout::all()[0]);
+				judge(format!("versatiles, tile type byte {code:#04x}, compression byte {cc}"), ct::open(&rt, Cont::Versatiles, &Written::Bytes(bytes)), (f, c));
+			}
+		}
+		// PMTiles v3: tile type 1 mvt, 2 png, 3 jpeg, 4 webp, 5 avif; compression 1 none, 2 gzip, 3 brotli
+		for (code, f) in [(1u8, TF::PBF), (2, TF::PNG), (3, TF::JPG), (4, TF::WEBP), (5, TF::AVIF)] {
+			for (cc, c) in [(1u8, TC::Uncompressed), (2, TC::Gzip), (3, TC::Brotli)] {
+				let tiles: TileMap = small.iter().map(|(k, v)| (*k, codec::encode_with(cc - 1, v))).collect();
+				let bytes = codec::pm_encode(&tiles, code, cc, META, PmLayout::all()[0]);
+				judge(format!("pmtiles, tile type {code}, tile compression {cc}"), ct::open(&rt, Cont::Pmtiles, &Written::Bytes(bytes)), (f, c));
+			}
+		}
+		// tar members and directory entries: the extension names the format, an optional .gz / .br the compression
+		for (ext, f) in [("bin", TF::BIN), ("png", TF::PNG), ("jpg", TF::JPG), ("jpeg", TF::JPG), ("webp", TF::WEBP), ("avif", TF::AVIF), ("svg", TF::SVG), ("pbf", TF::PBF), ("geojson", TF::GEOJSON), ("topojson", TF::TOPOJSON), ("json", TF::JSON)] {
+			for (suffix, cc, c) in [("", 0u8, TC::Uncompressed), (".gz", 1, TC::Gzip), (".br", 2, TC::Brotli)] {
+				let files: Vec<(String, Vec<u8>)> = small.iter().map(|(k, v)| (format!("{}/{}/{}.{ext}{suffix}", k.0, k.1, k.2), codec::encode_with(cc, v))).collect();
+				let tpath = work.0.join(format!("decl_{ext}{cc}.tar"));
+				std::fs::write(&tpath, codec::tar_write(&files, TarLayout::all()[0])).unwrap();
+				judge(format!("tar, members *.{ext}{suffix}"), ct::open(&rt, Cont::Tar, &Written::Path(tpath.clone())), (f, c));
+				let _ = std::fs::remove_file(&tpath);
+				let dpath = work.0.join(format!("decl_{ext}{cc}.dir"));
+				let _ = std::fs::remove_dir_all(&dpath);
+				codec::dir_write(&dpath, &files).unwrap();
+				judge(format!("directory, files *.{ext}{suffix}"), ct::open(&rt, Cont::Directory, &Written::Path(dpath.clone())), (f, c));
+				let _ = std::fs::remove_dir_all(&dpath);
+			}
+		}
+		// the same containers found by name (what convert / serve / from_container do): a file is opened by its
+		// extension, a directory as a directory - whatever its name ends in
+		let files: Vec<(String, Vec<u8>)> = small.iter().map(|(k, v)| (format!("{}/{}/{}.png", k.0, k.1, k.2), v.clone())).collect();
+		for name in ["plain", "tiles.d", "osm.tar", "osm.pmtiles", "osm.versatiles", "osm.vpl", "osm.png", "v1.2"] {
+			let dpath = work.0.join(format!("named/{name}"));
+			let _ = std::fs::remove_dir_all(&dpath);
+			codec::dir_write(&dpath, &files).unwrap();
+			ctx.eval();
+			let label = format!("directory named '{name}' opened by name");
+			let case = json!({"kind": "opened by name", "name": name});
+			match catch(|| rt.block_on(versatiles_container::get_reader(dpath.to_str().unwrap()))) {
+				Err(p) => ctx.violation(&format!("directory: reader panics while opening a spec-valid container at {}", panic_site(&p)), &format!("{label}: {p}"), case),
+				Ok(Err(e)) => ctx.violation(&format!("directory: reader rejects a spec-valid container: {}", super::c01::norm_msg(&format!("{e:#}"))), &format!("{label}: {e:#}"), case),
+				Ok(Ok(r)) => match catch(|| memsource::lookups(&rt, r.as_ref(), &[(3, 1, 2), (3, 2, 2), (3, 0, 0)])) {
+					Ok(Ok(got)) if got == small => {}
+					other => ctx.violation("directory: lookups differ from the encoded tiles", &format!("{label}: {:?}", other.map(|r| r.map(|m| m.len()))), case),
+				},
+			}
+		}
+		let _ = std::fs::remove_dir_all(work.0.join("named"));
+		ctx.outcome_n("declared tile type / compression codes of foreign containers, directories opened by name", 30 + 15 + 66 + 8);
 	}
 	ctx.exhaustive(true);
 	drop(work);
